@@ -382,7 +382,32 @@ def _finite_differences(col, rule="C16.R3"):
             "the Jacobian is taken at the current point with the residuals just evaluated there", "")
 
 
+def _truncation_options(col, rule="C16.R4"):
+    """the rcond / sing_val_cutoff a Jacobian step solves with are those given to *this* call (None = no truncation): they are
+    handed down unchanged Optimize.step -> JacobianSolver.step -> SVD.lstsq and never kept in solver state"""
+    repo = col.repo
+    jsx = octx(repo, "JacobianSolver", "step")
+    calls = jsx.calls_some(("call", ("attr", S.V("svd"), "lstsq"), S.V("a"), S.V("k")))
+    if not calls:
+        raise AnalysisError("JacobianSolver.step: no lstsq call -- cannot decide")
+    for ev, m in calls:
+        kws = dict(m["k"])
+        for name in ("rcond", "sing_val_cutoff"):
+            p = jsx.pnamed(name) if name in jsx.sym.params else None
+            got = kws.get(name)
+            col.add(rule, f"JacobianSolver.step#{name}-is-this-call's", p is not None and got == p, jsx.loc(ev),
+                    f"lstsq is called with the `{name}` argument of this very step() call", f"passed: {S.show(got) if got is not None else 'nothing'}")
+    osx = octx(repo, "Optimize", "step")
+    for ev, m in osx.calls_some(("call", ("attr", S.sattr("solver"), "step"), S.V("a"), S.V("k"))):
+        kws = dict(m["k"])
+        for name in ("rcond", "sing_val_cutoff"):
+            p = osx.pnamed(name) if name in osx.sym.params else None
+            col.add(rule, f"Optimize.step#{name}-handed-to-the-solver", p is not None and kws.get(name) == p, osx.loc(ev),
+                    f"Optimize.step hands its `{name}` argument to the solver step unchanged", S.show(kws.get(name)) if kws.get(name) is not None else "nothing")
+
+
 def check(col: Collector):
+    _truncation_options(col)
     _shapes(col)
     _truncation(col)
     _inverse_pairs(col)
